@@ -7,6 +7,7 @@ Unknown(reason); callers must treat Unknown in a needed cell as a report, never 
 Nothing of rooc is executed: the inputs are HIR trees from the facts file.
 """
 import re
+import math
 import os
 from facts import norm, base_ty, short
 
@@ -175,18 +176,23 @@ class _Return(Exception):
 
 
 class _Break(Exception):
-    pass
+    target = None
 
 
 class _Continue(Exception):
-    pass
+    target = None
 
 
 UNIT = ()
 INT_TYPES = {"i8": (8, True), "i16": (16, True), "i32": (32, True), "i64": (64, True), "isize": (64, True), "u8": (8, False), "u16": (16, False), "u32": (32, False), "u64": (64, False), "usize": (64, False)}
 STD_FLOAT_CONSTS = {}
+for _t, (_b, _sg) in INT_TYPES.items():
+    for _pre in ("std::%s::" % _t, "core::%s::" % _t, "%s::" % _t, "core::num::<impl %s>::" % _t, "std::num::<impl %s>::" % _t):
+        STD_FLOAT_CONSTS[_pre + "MAX"] = (1 << (_b - 1)) - 1 if _sg else (1 << _b) - 1
+        STD_FLOAT_CONSTS[_pre + "MIN"] = -(1 << (_b - 1)) if _sg else 0
 for _pre in ("std::f64::", "core::f64::", "f64::", "core::f64::<impl f64>::", "std::f64::<impl f64>::"):
     STD_FLOAT_CONSTS[_pre + "INFINITY"] = float("inf")
+    STD_FLOAT_CONSTS[_pre + "NAN"] = float("nan")
     STD_FLOAT_CONSTS[_pre + "NEG_INFINITY"] = float("-inf")
     STD_FLOAT_CONSTS[_pre + "EPSILON"] = 2.220446049250313e-16
     STD_FLOAT_CONSTS[_pre + "MAX"] = 1.7976931348623157e308
@@ -349,6 +355,26 @@ def _walk_pat(p):
                 if isinstance(q, dict):
                     for x in _walk_pat(q.get("pat", q) if "pat" in q and "k" not in q else q):
                         yield x
+
+
+def rust_f64_debug(x):
+    """`{:?}` of an f64: like Display, but exponent form below 1e-5 and from 1e16, and always with a fraction"""
+    if x != x:
+        return "NaN"
+    if x in (float("inf"), float("-inf")):
+        return "inf" if x > 0 else "-inf"
+    if x == 0:
+        return "-0.0" if math.copysign(1.0, x) < 0 else "0.0"
+    a = abs(x)
+    if a >= 1e16 or a < 1e-4:
+        m, e = repr(x).lower().split("e") if "e" in repr(x).lower() else (None, None)
+        if m is None:
+            m, e = ("%e" % x).split("e")
+            m = repr(float(m))
+        m = m[:-2] if m.endswith(".0") else m
+        return "%se%d" % (m, int(e))
+    d = rust_f64_display(x)
+    return d if "." in d else d + ".0"
 
 
 def rust_f64_display(x):
@@ -616,6 +642,7 @@ class Interp:
         explicit = parts[1:]
         vals = []
         named = {}
+        tys = {}
         for i, src in enumerate(explicit):
             if i >= len(hir_args):
                 return Unknown("format args mismatch")
@@ -624,6 +651,7 @@ class Interp:
             if m:
                 named[m.group(1)] = v
             vals.append(v)
+            tys[id(v)] = self.F.ty(hir_args[i])
         captured = hir_args[len(explicit):]
         rope = Rope()
         pos = 0
@@ -648,6 +676,7 @@ class Interp:
                 for c in captured:
                     if c.get("k") == "Path" and c.get("name") == nm:
                         v = self.ev(c, env)
+                        tys[id(v)] = self.F.ty(c)
                 if v is None:
                     v = self.lookup_name(nm, env)
                 if v is None:
@@ -666,18 +695,47 @@ class Interp:
                         return None
                     d = dbg(v)
                     if d is None:
+                        d = self.debug_fmt(v, tys.get(id(v)))
+                    if d is None:
                         return Unknown("debug formatting of %r" % (v,))
                     rope.add(d)
                     continue
-                mprec = re.fullmatch(r"\.(\d+)", spec)
-                if mprec and isinstance(v, float) and v == v and abs(v) != float("inf"):
-                    rope.add(format(v, ".%sf" % mprec.group(1)))
-                    continue
-                # other width/precision specs only matter for numbers, which are opaque leaves
-                r = self.display(v)
-                if is_unknown(r):
-                    return r
-                rope.add(r)
+                mspec = re.fullmatch(r"(?:(.)?([<>^]))?(\+)?(0)?(\d+)?(?:\.(\d+))?(\?)?", spec)
+                if mspec is None:
+                    return Unknown("format spec {:%s}" % spec)
+                fill, align, plus, zero, width, prec, dbg_ = mspec.groups()
+                if dbg_:
+                    body = self.debug_fmt(v, tys.get(id(v)))
+                    if body is None:
+                        return Unknown("debug formatting of %r" % (v,))
+                elif prec is not None and isinstance(v, (int, float)) and not isinstance(v, bool) and v == v and abs(v) != float("inf"):
+                    body = format(float(v), ".%sf" % prec) if isinstance(v, float) else str(v)
+                else:
+                    r = self.display(v)
+                    if is_unknown(r):
+                        return r
+                    if width is None and not plus:
+                        rope.add(r)
+                        continue
+                    try:
+                        body = r.text() if isinstance(r, Rope) else str(r)
+                    except Exception:
+                        return Unknown("width formatting of a symbolic text")
+                    if prec is not None and not isinstance(v, (int, float)):
+                        body = body[:int(prec)]
+                is_num = isinstance(v, (int, float)) and not isinstance(v, bool)
+                if plus and is_num and not body.startswith("-"):
+                    body = "+" + body
+                if width is not None and len(body) < int(width):
+                    pad = int(width) - len(body)
+                    if zero and is_num:
+                        sign = body[0] if body[:1] in "+-" else ""
+                        body = sign + "0" * pad + body[len(sign):]
+                    else:
+                        al = align or (">" if is_num else "<")
+                        f_ = fill or " "
+                        body = body + f_ * pad if al == "<" else (f_ * pad + body if al == ">" else f_ * (pad // 2) + body + f_ * (pad - pad // 2))
+                rope.add(body)
                 continue
             r = self.display(v)
             if is_unknown(r):
@@ -698,6 +756,104 @@ class Interp:
         if name in ("panic", "unreachable", "todo", "unimplemented"):
             return Unknown("panic reached: " + rope.text())
         return Unknown("macro " + str(name))
+
+    def debug_fmt(self, v, ty):
+        """`{:?}` of a value of Rust type `ty` (type-directed: the interpreter's values do not tell a char from a &str); None when not modelled"""
+        if ty is None or is_unknown(v):
+            return None
+        ty = ty.strip()
+        while True:
+            if ty.startswith("&mut "):
+                ty = ty[5:].strip()
+            elif ty.startswith("&"):
+                ty = re.sub(r"^&('\w+ )?", "", ty).strip()
+            elif re.match(r"^(std|alloc)::boxed::Box<", ty) and ty.endswith(">"):
+                ty = ty[ty.index("<") + 1:-1].strip()
+            else:
+                break
+
+        def split_args(t):
+            out, depth, cur = [], 0, ""
+            for ch in t:
+                if ch in "<([":
+                    depth += 1
+                elif ch in ">)]":
+                    depth -= 1
+                if ch == "," and depth == 0:
+                    out.append(cur.strip())
+                    cur = ""
+                else:
+                    cur += ch
+            if cur.strip():
+                out.append(cur.strip())
+            return out
+        if isinstance(v, MutRef):
+            v = v.get()
+        if ty in INT_TYPES and isinstance(v, int) and not isinstance(v, bool):
+            return str(v)
+        if ty == "bool" and isinstance(v, bool):
+            return "true" if v else "false"
+        if ty in ("f64", "f32") and isinstance(v, (int, float)) and not isinstance(v, bool):
+            return rust_f64_debug(float(v))
+        if ty == "char" and isinstance(v, str) and len(v) == 1:
+            return "'" + {"'": "\\'", "\\": "\\\\", "\n": "\\n", "\t": "\\t", "\r": "\\r"}.get(v, v) + "'"
+        if ty in ("str", "std::string::String", "alloc::string::String"):
+            if isinstance(v, Rope):
+                if not all(isinstance(x, str) for x in v.pieces):
+                    return None
+                v = v.text()
+            if not isinstance(v, str):
+                return None
+            return '"' + "".join({'"': '\\"', "\\": "\\\\", "\n": "\\n", "\t": "\\t", "\r": "\\r"}.get(c, c) for c in v) + '"'
+        if ty == "()":
+            return "()"
+        if ty.startswith("(") and ty.endswith(")") and isinstance(v, tuple):
+            ts = split_args(ty[1:-1])
+            if len(ts) != len(v):
+                return None
+            ps = [self.debug_fmt(x, t) for x, t in zip(v, ts)]
+            if any(q is None for q in ps):
+                return None
+            return "(" + ", ".join(ps) + ("," if len(ps) == 1 else "") + ")"
+        head = ty.split("<", 1)[0]
+        inner = split_args(ty[len(head) + 1:-1]) if "<" in ty and ty.endswith(">") else []
+        if head.endswith("option::Option") and isinstance(v, Var) and len(inner) == 1:
+            if v.path in NONE_PATHS:
+                return "None"
+            q = self.debug_fmt(v.args[0], inner[0]) if v.path in SOME_PATHS and v.args else None
+            return None if q is None else "Some(" + q + ")"
+        if head.endswith("result::Result") and isinstance(v, Var) and len(inner) == 2 and v.args:
+            q = self.debug_fmt(v.args[0], inner[0] if v.path in OK_PATHS else inner[1])
+            return None if q is None else ("Ok(" if v.path in OK_PATHS else "Err(") + q + ")"
+        seq_elem = None
+        if head.endswith(("vec::Vec", "collections::VecDeque", "vec_deque::VecDeque")) and inner:
+            seq_elem = inner[0]
+        elif ty.startswith("[") and ty.endswith("]"):
+            seq_elem = ty[1:-1].rsplit(";", 1)[0].strip()
+        if seq_elem is not None and isinstance(v, ListV):
+            ps = [self.debug_fmt(x, seq_elem) for x in v.items]
+            return None if any(q is None for q in ps) else "[" + ", ".join(ps) + "]"
+        if head.endswith("cmp::Ordering") and isinstance(v, Var):
+            return v.path.rsplit("::", 1)[-1]
+        if isinstance(v, Var):
+            # a local type with a derived Debug: Name { field: value, .. } / Name(a, b) / Name
+            sd = self.F.structs.get(head)
+            short_name = v.path.rsplit("::", 1)[-1]
+            if sd is not None and v.fields:
+                flds = sd.get("fields") or (sd.get("variants") or [{}])[0].get("fields", [])
+                ftys = {f["name"]: f.get("ty") for f in flds if isinstance(f, dict)}
+                ps = []
+                for f in [f["name"] for f in flds if isinstance(f, dict)]:
+                    if f not in v.fields:
+                        return None
+                    q = self.debug_fmt(v.fields[f], ftys.get(f))
+                    if q is None:
+                        return None
+                    ps.append("%s: %s" % (f, q))
+                return "%s { %s }" % (short_name, ", ".join(ps))
+            if not v.args and not v.fields:
+                return short_name
+        return None
 
     def lookup_name(self, name, env):
         for k, v in env.items():
@@ -1147,16 +1303,34 @@ class Interp:
                     return a > b
                 if op == ">=":
                     return a >= b
-                if op == "+":
-                    return a + b
-                if op == "-":
-                    return a - b
-                if op == "*":
-                    return a * b
-                if op == "/":
-                    return a / b if isinstance(a, float) or isinstance(b, float) else a // b
+                if op in ("+", "-", "*"):
+                    r = a + b if op == "+" else (a - b if op == "-" else a * b)
+                    if isinstance(r, int):
+                        bits = INT_TYPES.get(self.F.ty(n) or "")
+                        if bits is not None:
+                            lo, hi = (-(1 << (bits[0] - 1)), (1 << (bits[0] - 1)) - 1) if bits[1] else (0, (1 << bits[0]) - 1)
+                            if not lo <= r <= hi:
+                                return Unknown("panic reached: arithmetic overflow in `%s`" % op)
+                    return r
+                if op in ("/", "%"):
+                    if isinstance(a, float) or isinstance(b, float):
+                        a, b = float(a), float(b)
+                        if op == "%":
+                            return math.fmod(a, b) if b != 0 and abs(a) != float("inf") else float("nan")
+                        if b == 0:
+                            return float("nan") if a == 0 or a != a else math.copysign(float("inf"), a) * math.copysign(1.0, b)
+                        return a / b
+                    if b == 0:
+                        return Unknown("panic reached: attempt to divide by zero")
+                    q = abs(a) // abs(b) * (1 if (a >= 0) == (b >= 0) else -1)   # Rust truncates toward zero
+                    return q if op == "/" else a - b * q
             except Exception as e:  # pragma: no cover
                 return Unknown("arith " + str(e))
+        if op == "+" and isinstance(a, (Rope, str)) and isinstance(b, (Rope, str)):
+            r = Rope()
+            r.add(a)
+            r.add(b)
+            return r
         if isinstance(a, bool) and isinstance(b, bool):
             if op == "&":
                 return a and b
@@ -1224,8 +1398,8 @@ class Interp:
             r = self.local_from(args[0], base_ty(self.F.ty(n) or ""))
             if r is not None:
                 return r
-        if cn in ("std::boxed::Box::new", "alloc::boxed::Box::new", "std::convert::From::from", "std::string::String::from", "std::convert::Into::into"):
-            return self.as_string(args[0]) if cn.endswith("String::from") else args[0]
+        if cn in ("std::boxed::Box::new", "alloc::boxed::Box::new", "std::convert::From::from", "std::string::String::from", "std::convert::Into::into") or (cn.startswith("<std::string::String as std::convert::From<") and cn.endswith(">::from")):
+            return self.as_string(args[0]) if cn.endswith(("String::from", ">::from")) and "String" in cn else args[0]
         if cn in ("std::string::ToString::to_string",):
             return self.display(args[0])
         if cn in self.F.fns or any(norm(p) == cn for p in ()):
@@ -1602,7 +1776,10 @@ class Interp:
             elif all(isinstance(k_, (int, float)) and not isinstance(k_, bool) for k_ in keys):
                 order = sorted(range(len(keys)), key=lambda i_: keys[i_])
             else:
-                return Unknown("sort of %r" % (recv,))
+                ks = [self._ord_key(x) for x in recv.items]
+                if any(k_ is None for k_ in ks):
+                    return Unknown("sort of %r" % (recv,))
+                order = sorted(range(len(ks)), key=lambda i_: ks[i_])
             recv.items[:] = [recv.items[i_] for i_ in order]
             return UNIT
         if name == "flatten" and isinstance(recv, ListV) and not args:
@@ -1621,6 +1798,8 @@ class Interp:
             return ListV(out)
         if name == "zip" and isinstance(recv, ListV) and len(args) == 1 and isinstance(args[0], ListV):
             return ListV([(a_, b_) for a_, b_ in zip(recv.items, args[0].items)])
+        if name == "step_by" and isinstance(recv, ListV) and len(args) == 1 and isinstance(args[0], int) and args[0] > 0:
+            return ListV(recv.items[::args[0]])
         if name in ("skip", "take") and isinstance(recv, ListV) and len(args) == 1 and isinstance(args[0], int):
             return ListV(recv.items[args[0]:] if name == "skip" else recv.items[:args[0]])
         if name == "last" and isinstance(recv, ListV) and not args:
@@ -1931,9 +2110,9 @@ class Interp:
                 return Var(NONE_PATHS[0])
         if isinstance(recv, Var) and recv.path == "MAPENTRY" and name in ("or_default", "or_insert", "or_insert_with"):
             m_, k0 = recv.args
-            for k_, v_ in m_.items:
+            for i_, (k_, v_) in enumerate(m_.items):
                 if _plain(k_) == _plain(k0):
-                    return v_
+                    return v_ if isinstance(v_, (Var, ListV, Rope)) else _map_value_ref(m_, i_)
             if name == "or_default":
                 ty = self.F.ty(n) or ""
                 v_ = ListV([]) if ("Vec<" in ty or "IndexMap<" in ty) else (Rope() if "String" in ty else (0 if re.search(r"\b(usize|u64|i64|u32|i32)\b", ty) else (0.0 if "f64" in ty else Unknown("default of " + ty))))
@@ -1942,7 +2121,7 @@ class Interp:
             else:
                 v_ = self.apply(args[0], [])
             m_.items.append((k0, v_))
-            return v_
+            return v_ if isinstance(v_, (Var, ListV, Rope)) or is_unknown(v_) else _map_value_ref(m_, len(m_.items) - 1)
         if name in ("values", "keys") and not args and isinstance(recv, ListV) and all(isinstance(x, tuple) and len(x) == 2 for x in recv.items):
             return ListV([x[1] if name == "values" else x[0] for x in recv.items])
         if name == "is_zero" and not args and isinstance(recv, (int, float)) and not isinstance(recv, bool):
@@ -1972,7 +2151,474 @@ class Interp:
         for a_ in args:
             if is_unknown(a_):
                 return a_
+        r = self.builtin_more(name, cn, recv, args, n)
+        if r is not NotImplemented:
+            return r
         return Unknown("method %s (%s) on %r" % (name, cn, recv))
+
+    def _ord_key(self, x):
+        """a python sort key for values Rust can order (integers, floats through partial_cmp, strings by bytes, tuples, unit variants); None if not orderable here"""
+        x = _plain(x)
+        if isinstance(x, bool):
+            return (0, int(x))
+        if isinstance(x, (int, float)):
+            return None if x != x else (1, x)
+        if isinstance(x, str):
+            return (2, x.encode("utf8"))
+        if isinstance(x, tuple):
+            ks = [self._ord_key(y) for y in x]
+            return None if any(k is None for k in ks) else (3, tuple(ks))
+        return None
+
+    def builtin_more(self, name, cn, recv, args, n):
+        """std methods that ordinary refactorings of the crate would reach for; NotImplemented when the method is not modelled"""
+        some = isinstance(recv, Var) and recv.path in SOME_PATHS
+        none = isinstance(recv, Var) and recv.path in NONE_PATHS
+        ok = isinstance(recv, Var) and recv.path in OK_PATHS
+        err = isinstance(recv, Var) and recv.path in ERR_PATHS
+        mk_some = lambda v: Var(SOME_PATHS[0], [v])
+        NONE = Var(NONE_PATHS[0])
+
+        def pred(f, xs):
+            r = self.apply(f, xs)
+            return r if isinstance(r, bool) else Unknown("predicate not boolean: %r" % (r,))
+        # ---- Option / Result
+        if some or none:
+            if name == "is_some_and" and len(args) == 1:
+                return pred(args[0], [recv.args[0]]) if some else False
+            if name == "is_none_or" and len(args) == 1:
+                return pred(args[0], [recv.args[0]]) if some else True
+            if name in ("unwrap_or_default",) and not args and some:
+                return recv.args[0]
+            if name == "or" and len(args) == 1:
+                return recv if some else args[0]
+            if name == "or_else" and len(args) == 1:
+                return recv if some else self.apply(args[0], [])
+            if name == "and" and len(args) == 1:
+                return args[0] if some else recv
+            if name == "xor" and len(args) == 1 and isinstance(args[0], Var):
+                o_some = args[0].path in SOME_PATHS
+                return recv if some and not o_some else (args[0] if o_some and not some else NONE)
+            if name == "filter" and len(args) == 1:
+                if none:
+                    return recv
+                r = pred(args[0], [recv.args[0]])
+                return r if is_unknown(r) else (recv if r else NONE)
+            if name == "zip" and len(args) == 1 and isinstance(args[0], Var):
+                return mk_some((recv.args[0], args[0].args[0])) if some and args[0].path in SOME_PATHS else NONE
+            if name == "take" and not args:
+                return recv
+            if name == "inspect" and len(args) == 1:
+                if some:
+                    r = self.apply(args[0], [recv.args[0]])
+                    if is_unknown(r):
+                        return r
+                return recv
+            if name in ("iter", "into_iter") and not args:
+                return ListV([recv.args[0]] if some else [])
+            if name == "expect" and len(args) == 1 and some:
+                return recv.args[0]
+            if name == "flatten" and not args:
+                return recv.args[0] if some else recv
+            if name == "unzip" and not args:
+                return (mk_some(recv.args[0][0]), mk_some(recv.args[0][1])) if some and isinstance(recv.args[0], tuple) else (NONE, NONE)
+        if ok or err:
+            if name == "is_ok_and" and len(args) == 1:
+                return pred(args[0], [recv.args[0]]) if ok else False
+            if name == "is_err_and" and len(args) == 1:
+                return pred(args[0], [recv.args[0]]) if err else False
+            if name == "err" and not args:
+                return mk_some(recv.args[0]) if err else NONE
+            if name == "or_else" and len(args) == 1:
+                return recv if ok else self.apply(args[0], [recv.args[0]])
+            if name == "or" and len(args) == 1:
+                return recv if ok else args[0]
+            if name == "and" and len(args) == 1:
+                return args[0] if ok else recv
+            if name in ("unwrap_or_default",) and not args and ok:
+                return recv.args[0]
+            if name in ("iter", "into_iter") and not args:
+                return ListV([recv.args[0]] if ok else [])
+            if name in ("inspect", "inspect_err") and len(args) == 1:
+                if (ok and name == "inspect") or (err and name == "inspect_err"):
+                    r = self.apply(args[0], [recv.args[0]])
+                    if is_unknown(r):
+                        return r
+                return recv
+            if name == "expect" and len(args) == 1 and ok:
+                return recv.args[0]
+        # ---- booleans
+        if isinstance(recv, bool):
+            if name == "then_some" and len(args) == 1:
+                return mk_some(args[0]) if recv else NONE
+            if name == "then" and len(args) == 1:
+                if not recv:
+                    return NONE
+                r = self.apply(args[0], [])
+                return r if is_unknown(r) else mk_some(r)
+            if name == "not" and not args:
+                return not recv
+        # ---- numbers
+        if isinstance(recv, (int, float)) and not isinstance(recv, bool):
+            a = [x for x in args]
+            num = lambda x: isinstance(x, (int, float)) and not isinstance(x, bool)
+            if name == "clamp" and len(a) == 2 and num(a[0]) and num(a[1]):
+                return a[0] if recv < a[0] else (a[1] if recv > a[1] else recv)
+            if name == "signum" and not a:
+                if isinstance(recv, float):
+                    return recv if recv != recv else (1.0 if (recv > 0 or (recv == 0 and math.copysign(1.0, recv) > 0)) else -1.0)
+                return (recv > 0) - (recv < 0)
+            if name == "abs_diff" and len(a) == 1 and isinstance(recv, int) and isinstance(a[0], int):
+                return abs(recv - a[0])
+            if name == "pow" and len(a) == 1 and isinstance(recv, int) and isinstance(a[0], int) and 0 <= a[0] < 64:
+                r = recv ** a[0]
+                return r if abs(r) < (1 << 63) else Unknown("integer overflow in pow")
+            if name == "powf" and len(a) == 1 and num(a[0]):
+                try:
+                    return float(recv) ** float(a[0])
+                except (OverflowError, ZeroDivisionError, ValueError):
+                    return Unknown("powf")
+            if name == "sqrt" and not a and isinstance(recv, float):
+                return math.sqrt(recv) if recv >= 0 else float("nan")
+            if name == "mul_add" and len(a) == 2 and num(a[0]) and num(a[1]):
+                return float(recv) * a[0] + a[1]
+            if name in ("rem_euclid", "div_euclid") and len(a) == 1 and isinstance(recv, int) and isinstance(a[0], int) and a[0] != 0:
+                q, m = divmod(recv, abs(a[0]))
+                return m if name == "rem_euclid" else (q if a[0] > 0 else -q)
+            if name == "recip" and not a and isinstance(recv, float):
+                return 1.0 / recv if recv != 0 else math.copysign(float("inf"), recv)
+            if name == "is_positive" and not a and isinstance(recv, int):
+                return recv > 0
+            if name == "is_negative" and not a and isinstance(recv, int):
+                return recv < 0
+            if name == "copysign" and len(a) == 1 and num(a[0]):
+                return math.copysign(float(recv), float(a[0]))
+            if name in ("partial_cmp", "cmp", "total_cmp") and len(a) == 1 and num(a[0]):
+                if name == "partial_cmp" and (recv != recv or a[0] != a[0]):
+                    return NONE
+                o = Var("std::cmp::Ordering::" + ("Less" if recv < a[0] else "Greater" if recv > a[0] else "Equal"))
+                return mk_some(o) if name == "partial_cmp" else o
+            if name in ("lt", "le", "gt", "ge") and len(a) == 1 and num(a[0]):
+                return {"lt": recv < a[0], "le": recv <= a[0], "gt": recv > a[0], "ge": recv >= a[0]}[name]
+            if name == "to_bits" and not a and isinstance(recv, float):
+                import struct
+                return struct.unpack("<Q", struct.pack("<d", recv))[0]
+        if isinstance(recv, Var) and recv.path.startswith(("std::cmp::Ordering::", "core::cmp::Ordering::")) and not recv.args:
+            v = recv.path.rsplit("::", 1)[-1]
+            table = {"is_lt": v == "Less", "is_le": v != "Greater", "is_gt": v == "Greater", "is_ge": v != "Less", "is_eq": v == "Equal", "is_ne": v != "Equal"}
+            if name in table and not args:
+                return table[name]
+            if name == "reverse" and not args:
+                return Var("std::cmp::Ordering::" + {"Less": "Greater", "Greater": "Less", "Equal": "Equal"}[v])
+            if name == "then" and len(args) == 1:
+                return recv if v != "Equal" else args[0]
+            if name == "then_with" and len(args) == 1:
+                return recv if v != "Equal" else self.apply(args[0], [])
+        # ---- strings
+        if isinstance(recv, (str, Rope)):
+            txt = recv if isinstance(recv, str) else (recv.text() if all(isinstance(x, str) for x in recv.pieces) else None)
+            if txt is not None:
+                sarg = lambda x: x if isinstance(x, str) else (x.text() if isinstance(x, Rope) and all(isinstance(y, str) for y in x.pieces) else None)
+                if name == "find" and len(args) == 1 and sarg(args[0]) is not None:
+                    i_ = txt.find(sarg(args[0]))
+                    return mk_some(len(txt[:i_].encode("utf8"))) if i_ >= 0 else NONE
+                if name in ("replace", "replacen") and len(args) >= 2 and sarg(args[0]) is not None and sarg(args[1]) is not None:
+                    return Rope([txt.replace(sarg(args[0]), sarg(args[1]), *( [args[2]] if name == "replacen" and len(args) == 3 else []))])
+                if name == "split_whitespace" and not args:
+                    return ListV(txt.split())
+                if name == "char_indices" and not args and txt.isascii():
+                    return ListV([(i_, c) for i_, c in enumerate(txt)])
+                if name == "bytes" and not args:
+                    return ListV(list(txt.encode("utf8")))
+                if name == "eq_ignore_ascii_case" and len(args) == 1 and sarg(args[0]) is not None:
+                    return txt.lower() == sarg(args[0]).lower() if txt.isascii() and sarg(args[0]).isascii() else NotImplemented
+                if name == "split_once" and len(args) == 1 and sarg(args[0]) is not None:
+                    i_ = txt.find(sarg(args[0]))
+                    return mk_some((txt[:i_], txt[i_ + len(sarg(args[0])):])) if i_ >= 0 else NONE
+                if name == "rsplit_once" and len(args) == 1 and sarg(args[0]) is not None:
+                    i_ = txt.rfind(sarg(args[0]))
+                    return mk_some((txt[:i_], txt[i_ + len(sarg(args[0])):])) if i_ >= 0 else NONE
+                if name == "is_char_boundary" and len(args) == 1 and isinstance(args[0], int) and txt.isascii():
+                    return 0 <= args[0] <= len(txt)
+                if name in ("cmp", "partial_cmp") and len(args) == 1 and sarg(args[0]) is not None:
+                    a_, b_ = txt.encode("utf8"), sarg(args[0]).encode("utf8")
+                    o = Var("std::cmp::Ordering::" + ("Less" if a_ < b_ else "Greater" if a_ > b_ else "Equal"))
+                    return mk_some(o) if name == "partial_cmp" else o
+                if name == "clear" and not args and isinstance(recv, Rope):
+                    recv.pieces[:] = []
+                    return UNIT
+                if name == "insert_str" and len(args) == 2 and args[0] == 0 and isinstance(recv, Rope) and sarg(args[1]) is not None:
+                    recv.pieces.insert(0, sarg(args[1]))
+                    return UNIT
+                if name == "char_count" and not args:
+                    return len(txt)
+        if isinstance(recv, str) and len(recv) == 1:
+            if name == "to_digit" and len(args) == 1 and isinstance(args[0], int):
+                try:
+                    return mk_some(int(recv, args[0]))
+                except ValueError:
+                    return NONE
+            if name in ("to_ascii_lowercase", "to_ascii_uppercase") and not args:
+                return recv.lower() if name.endswith("lowercase") else recv.upper()
+            if name == "len_utf8" and not args:
+                return len(recv.encode("utf8"))
+        # ---- sequences
+        if isinstance(recv, ListV):
+            items = recv.items
+            is_map = bool(items) and all(isinstance(x, tuple) and len(x) == 2 for x in items) and ("Map" in cn)
+            if name in ("copied", "cloned", "iter", "into_iter", "by_ref", "peekable", "fuse", "drain_all") and not args:
+                return ListV(list(items))
+            if name == "nth" and len(args) == 1 and isinstance(args[0], int):
+                return mk_some(items[args[0]]) if 0 <= args[0] < len(items) else NONE
+            if name in ("take_while", "skip_while", "map_while") and len(args) == 1:
+                out, k = [], 0
+                for k, x in enumerate(items):
+                    r = self.apply(args[0], [x])
+                    if name == "map_while":
+                        if is_unknown(r):
+                            return r
+                        if isinstance(r, Var) and r.path in SOME_PATHS:
+                            out.append(r.args[0])
+                            continue
+                        break
+                    if not isinstance(r, bool):
+                        return Unknown("predicate not boolean: %r" % (r,))
+                    if not r:
+                        return ListV(out) if name == "take_while" else ListV(items[k:])
+                    if name == "take_while":
+                        out.append(x)
+                return ListV(out) if name in ("take_while", "map_while") else ListV([])
+            if name in ("min_by_key", "max_by_key", "min_by", "max_by", "min", "max") and len(args) <= 1 and "Iterator" in cn:
+                if not items:
+                    return NONE
+                if name in ("min", "max"):
+                    keys = [self._ord_key(x) for x in items]
+                elif name.endswith("_key"):
+                    ks = [self.apply(args[0], [x]) for x in items]
+                    if any(is_unknown(k_) for k_ in ks):
+                        return next(k_ for k_ in ks if is_unknown(k_))
+                    keys = [self._ord_key(k_) for k_ in ks]
+                else:
+                    best = items[0]
+                    for x in items[1:]:
+                        o = self.apply(args[0], [best, x])
+                        if not (isinstance(o, Var) and "Ordering::" in o.path):
+                            return o if is_unknown(o) else Unknown("comparator result %r" % (o,))
+                        v = o.path.rsplit("::", 1)[-1]
+                        # max_by keeps the last of equal maxima, min_by the first of equal minima
+                        if (name == "max_by" and v in ("Less", "Equal")) or (name == "min_by" and v == "Greater"):
+                            best = x
+                    return mk_some(best)
+                if any(k_ is None for k_ in keys):
+                    return NotImplemented
+                bi = 0
+                for i_ in range(1, len(items)):
+                    if (name.startswith("max") and keys[i_] >= keys[bi]) or (name.startswith("min") and keys[i_] < keys[bi]):
+                        bi = i_
+                return mk_some(items[bi])
+            if name in ("sort_by_key", "sort_unstable_by_key", "sort_by_cached_key") and len(args) == 1:
+                ks = [self.apply(args[0], [x]) for x in items]
+                if any(is_unknown(k_) for k_ in ks):
+                    return next(k_ for k_ in ks if is_unknown(k_))
+                keys = [self._ord_key(k_) for k_ in ks]
+                if any(k_ is None for k_ in keys):
+                    return NotImplemented
+                order = sorted(range(len(items)), key=lambda i_: keys[i_])
+                items[:] = [items[i_] for i_ in order]
+                return UNIT
+            if name in ("sort_by", "sort_unstable_by") and len(args) == 1:
+                import functools
+                bad = []
+
+                def cmp_(a_, b_):
+                    o = self.apply(args[0], [a_, b_])
+                    if not (isinstance(o, Var) and "Ordering::" in o.path):
+                        bad.append(o)
+                        return 0
+                    return {"Less": -1, "Equal": 0, "Greater": 1}[o.path.rsplit("::", 1)[-1]]
+                out = sorted(items, key=functools.cmp_to_key(cmp_))
+                if bad:
+                    return bad[0] if is_unknown(bad[0]) else Unknown("comparator result %r" % (bad[0],))
+                items[:] = out
+                return UNIT
+            if name == "dedup" and not args:
+                out = []
+                for x in items:
+                    if not out or _plain(out[-1]) != _plain(x):
+                        out.append(x)
+                items[:] = out
+                return UNIT
+            if name == "reverse" and not args:
+                items.reverse()
+                return UNIT
+            if name == "clear" and not args:
+                items[:] = []
+                return UNIT
+            if name == "truncate" and len(args) == 1 and isinstance(args[0], int):
+                del items[args[0]:]
+                return UNIT
+            if name == "insert" and len(args) == 2 and isinstance(args[0], int) and not is_map and 0 <= args[0] <= len(items) and "Vec" in cn:
+                items.insert(args[0], args[1])
+                return UNIT
+            if name == "swap" and len(args) == 2 and all(isinstance(a_, int) and 0 <= a_ < len(items) for a_ in args):
+                items[args[0]], items[args[1]] = items[args[1]], items[args[0]]
+                return UNIT
+            if name == "extend_from_slice" and len(args) == 1 and isinstance(args[0], ListV):
+                items.extend(_deep_clone(x) for x in args[0].items)
+                return UNIT
+            if name == "append" and len(args) == 1 and isinstance(args[0], ListV):
+                items.extend(args[0].items)
+                args[0].items[:] = []
+                return UNIT
+            if name == "split_off" and len(args) == 1 and isinstance(args[0], int) and 0 <= args[0] <= len(items):
+                tail = items[args[0]:]
+                del items[args[0]:]
+                return ListV(tail)
+            if name == "drain" and len(args) == 1 and isinstance(args[0], Var) and "ops::Range" in args[0].path:
+                lo = args[0].fields.get("start", 0)
+                hi = args[0].fields.get("end", len(items))
+                if isinstance(lo, int) and isinstance(hi, int):
+                    hi += 1 if args[0].path.endswith("RangeInclusive") else 0
+                    out = items[lo:hi]
+                    del items[lo:hi]
+                    return ListV(out)
+            if name == "split_at" and len(args) == 1 and isinstance(args[0], int) and 0 <= args[0] <= len(items):
+                return (ListV(items[:args[0]]), ListV(items[args[0]:]))
+            if name in ("split_first", "split_last") and not args:
+                if not items:
+                    return NONE
+                return mk_some((items[0], ListV(items[1:]))) if name == "split_first" else mk_some((items[-1], ListV(items[:-1])))
+            if name in ("windows", "chunks") and len(args) == 1 and isinstance(args[0], int) and args[0] > 0:
+                k = args[0]
+                if name == "windows":
+                    return ListV([ListV(items[i_:i_ + k]) for i_ in range(0, len(items) - k + 1)])
+                return ListV([ListV(items[i_:i_ + k]) for i_ in range(0, len(items), k)])
+            if name == "concat" and not args and items and all(isinstance(x, ListV) for x in items):
+                return ListV([y for x in items for y in x.items])
+            if name == "concat" and not args and all(isinstance(x, (str, Rope)) for x in items):
+                r_ = Rope()
+                for x in items:
+                    r_.add(x)
+                return r_
+            if name == "partition" and len(args) == 1:
+                yes, no = [], []
+                for x in items:
+                    r = self.apply(args[0], [x])
+                    if not isinstance(r, bool):
+                        return Unknown("predicate not boolean: %r" % (r,))
+                    (yes if r else no).append(x)
+                return (ListV(yes), ListV(no))
+            if name == "unzip" and not args and all(isinstance(x, tuple) and len(x) == 2 for x in items):
+                return (ListV([x[0] for x in items]), ListV([x[1] for x in items]))
+            if name in ("try_fold",) and len(args) == 2:
+                acc = args[0]
+                for x in items:
+                    r = self.apply(args[1], [acc, x])
+                    if is_unknown(r):
+                        return r
+                    if isinstance(r, Var) and (r.path in ERR_PATHS or r.path in NONE_PATHS):
+                        return r
+                    if not (isinstance(r, Var) and (r.path in OK_PATHS or r.path in SOME_PATHS)):
+                        return Unknown("try_fold step %r" % (r,))
+                    acc = r.args[0]
+                ty = self.F.ty(n) or ""
+                return Var(SOME_PATHS[0] if "Option<" in ty.split("<", 1)[0] + "<" else OK_PATHS[0], [acc])
+            if name == "try_for_each" and len(args) == 1:
+                for x in list(items):
+                    r = self.apply(args[0], [x])
+                    if is_unknown(r):
+                        return r
+                    if isinstance(r, Var) and (r.path in ERR_PATHS or r.path in NONE_PATHS):
+                        return r
+                ty = self.F.ty(n) or ""
+                return Var(SOME_PATHS[0] if "Option<" in ty.split("<", 1)[0] + "<" else OK_PATHS[0], [UNIT])
+            if name == "reduce" and len(args) == 1:
+                if not items:
+                    return NONE
+                acc = items[0]
+                for x in items[1:]:
+                    acc = self.apply(args[0], [acc, x])
+                    if is_unknown(acc):
+                        return acc
+                return mk_some(acc)
+            if name == "product" and not args and all(isinstance(x, (int, float)) and not isinstance(x, bool) for x in items):
+                tot = 1.0 if any(isinstance(x, float) for x in items) or "f64" in (self.F.ty(n) or "") else 1
+                for x in items:
+                    tot = tot * x
+                return tot
+            if name == "rposition" and len(args) == 1:
+                for i_ in range(len(items) - 1, -1, -1):
+                    r = self.apply(args[0], [items[i_]])
+                    if not isinstance(r, bool):
+                        return Unknown("predicate not boolean: %r" % (r,))
+                    if r:
+                        return mk_some(i_)
+                return NONE
+            if name == "find_map" and len(args) == 1:
+                for x in items:
+                    r = self.apply(args[0], [x])
+                    if is_unknown(r):
+                        return r
+                    if isinstance(r, Var) and r.path in SOME_PATHS:
+                        return r
+                return NONE
+            if name == "inspect" and len(args) == 1:
+                for x in items:
+                    r = self.apply(args[0], [x])
+                    if is_unknown(r):
+                        return r
+                return ListV(list(items))
+            if name == "scan" and len(args) == 2:
+                return NotImplemented
+            if name in ("starts_with", "ends_with") and len(args) == 1 and isinstance(args[0], ListV):
+                k = len(args[0].items)
+                part = items[:k] if name == "starts_with" else (items[len(items) - k:] if k else [])
+                return len(items) >= k and [_plain(x) for x in part] == [_plain(x) for x in args[0].items]
+            if name == "binary_search" and len(args) == 1:
+                keys = [self._ord_key(x) for x in items]
+                kk = self._ord_key(args[0])
+                if kk is None or any(k_ is None for k_ in keys):
+                    return NotImplemented
+                import bisect
+                i_ = bisect.bisect_left(keys, kk)
+                hit = i_ < len(keys) and keys[i_] == kk
+                return Var(OK_PATHS[0], [i_]) if hit else Var(ERR_PATHS[0], [i_])
+            if name == "iter_mut" and not args:
+                return _mut_view(recv)
+            if name == "is_sorted" and not args:
+                keys = [self._ord_key(x) for x in items]
+                return NotImplemented if any(k_ is None for k_ in keys) else all(keys[i_] <= keys[i_ + 1] for i_ in range(len(keys) - 1))
+            if name == "eq" and len(args) == 1 and isinstance(args[0], ListV):
+                return [_plain(x) for x in items] == [_plain(x) for x in args[0].items]
+            if name == "sum" and not args and not items:
+                return 0.0 if "f64" in (self.F.ty(n) or "") else 0
+            if name == "cycle":
+                return NotImplemented
+            if is_map or (not items and "Map" in cn):
+                if name == "get_or_insert_with":
+                    return NotImplemented
+                if name == "remove_entry" and len(args) == 1:
+                    for i_, (k_, v_) in enumerate(items):
+                        if _plain(k_) == _plain(args[0]):
+                            del items[i_]
+                            return mk_some((k_, v_))
+                    return NONE
+                if name == "get_key_value" and len(args) == 1:
+                    for k_, v_ in items:
+                        if _plain(k_) == _plain(args[0]):
+                            return mk_some((k_, v_))
+                    return NONE
+                if name == "get_index_of" and len(args) == 1:
+                    for i_, (k_, v_) in enumerate(items):
+                        if _plain(k_) == _plain(args[0]):
+                            return mk_some(i_)
+                    return NONE
+                if name == "first" and not args:
+                    return mk_some(items[0]) if items else NONE
+        # tuples of two
+        if isinstance(recv, tuple) and name in ("clone", "to_owned") and not args:
+            return _deep_clone(recv)
+        return NotImplemented
 
     def ev_Index(self, n, env):
         a = self.ev(n["a"], env)
@@ -2034,7 +2680,32 @@ class Interp:
             if is_unknown(cur) or is_unknown(rhs):
                 return Unknown("assign-op on unknown")
             if isinstance(cur, (int, float)) and isinstance(rhs, (int, float)) and not isinstance(cur, bool):
-                return {"+": cur + rhs, "-": cur - rhs, "*": cur * rhs, "/": (cur / rhs if rhs else Unknown("div0"))}.get(op, Unknown("assign-op " + op))
+                if op in ("/", "%"):
+                    if isinstance(cur, float) or isinstance(rhs, float):
+                        if op == "%":
+                            return math.fmod(cur, rhs) if rhs != 0 and abs(cur) != float("inf") else float("nan")
+                        if rhs == 0:
+                            return float("nan") if cur == 0 or cur != cur else math.copysign(float("inf"), cur) * math.copysign(1.0, rhs)
+                        return cur / rhs
+                    if rhs == 0:
+                        return Unknown("panic reached: attempt to divide by zero")
+                    q = abs(cur) // abs(rhs) * (1 if (cur >= 0) == (rhs >= 0) else -1)
+                    return q if op == "/" else cur - rhs * q
+                r = {"+": cur + rhs, "-": cur - rhs, "*": cur * rhs}.get(op)
+                if r is None:
+                    return Unknown("assign-op " + op)
+                if isinstance(r, int):
+                    bits = INT_TYPES.get(self.F.ty(n["lhs"]) or "")
+                    if bits is not None:
+                        lo, hi = (-(1 << (bits[0] - 1)), (1 << (bits[0] - 1)) - 1) if bits[1] else (0, (1 << bits[0]) - 1)
+                        if not lo <= r <= hi:
+                            return Unknown("panic reached: arithmetic overflow in `%s=`" % op)
+                return r
+            if op == "+" and isinstance(cur, Rope) and isinstance(rhs, (Rope, str)):
+                cur.add(rhs)
+                return cur
+            if isinstance(cur, bool) and isinstance(rhs, bool) and op in ("&", "|", "^"):
+                return (cur and rhs) if op == "&" else ((cur or rhs) if op == "|" else cur != rhs)
             return Unknown("assign-op on %r" % (cur,))
         if isinstance(rhs, MutRef):
             rhs = rhs.get()
@@ -2056,7 +2727,14 @@ class Interp:
             if isinstance(base, ListV) and isinstance(i, int) and 0 <= i < len(base.items):
                 base.items[i] = combine(base.items[i])
                 return UNIT
-        return Unknown("assign-op target")
+        node = n["lhs"]
+        while node.get("k") == "Unary" and node.get("op") == "*":
+            node = node["a"]
+        tgt = self.ev(node, env)
+        if isinstance(tgt, MutRef):
+            tgt.set(combine(tgt.get()))
+            return UNIT
+        return tgt if is_unknown(tgt) else Unknown("assign-op target")
 
     def ev_LetExpr(self, n, env):
         v = self.ev(n["init"], env)
@@ -2077,9 +2755,13 @@ class Interp:
                 return Unknown("for pattern")
             try:
                 r = self.ev(n["body"], env)
-            except _Continue:
+            except _Continue as c_:
+                if c_.target is not None and n.get("lid") is not None and c_.target != n["lid"]:
+                    raise
                 continue
-            except _Break:
+            except _Break as b_:
+                if b_.target is not None and n.get("lid") is not None and b_.target != n["lid"]:
+                    raise
                 break
             if is_unknown(r):
                 return r
@@ -2094,9 +2776,13 @@ class Interp:
                 return Unknown("while condition undecidable: %r" % (c,))
             try:
                 r = self.ev(n["body"], env)
-            except _Continue:
+            except _Continue as c_:
+                if c_.target is not None and n.get("lid") is not None and c_.target != n["lid"]:
+                    raise
                 continue
-            except _Break:
+            except _Break as b_:
+                if b_.target is not None and n.get("lid") is not None and b_.target != n["lid"]:
+                    raise
                 break
             if is_unknown(r):
                 return r
@@ -2108,18 +2794,25 @@ class Interp:
         for _ in range(100000):
             try:
                 r = self.ev(n["body"], env)
-            except _Continue:
+            except _Continue as c_:
+                if c_.target is not None and n.get("lid") is not None and c_.target != n["lid"]:
+                    raise
                 continue
             except _Break as b:
+                if b.target is not None and n.get("lid") is not None and b.target != n["lid"]:
+                    raise
                 return getattr(b, "v", UNIT)
             if is_unknown(r):
                 return r
         return Unknown("loop bound exceeded")
 
     def ev_Continue(self, n, env):
-        raise _Continue()
+        c = _Continue()
+        c.target = n.get("target")
+        raise c
 
     def ev_Break(self, n, env):
         b = _Break()
+        b.target = n.get("target")
         b.v = self.ev(n["e"], env) if n.get("e") is not None else UNIT
         raise b
